@@ -482,7 +482,8 @@ func encode(g geom.T, opts ...EncodeGeometryOption) (*Geometry, error) {
 // Marshal marshals an arbitrary geometry to a []byte.
 func Marshal(g geom.T, opts ...EncodeGeometryOption) ([]byte, error) {
 	if g == nil {
-		return nullGeometry, nil
+		// a fresh slice: the caller owns (and may modify) the result
+		return append([]byte(nil), nullGeometry...), nil
 	}
 	geojson, err := Encode(g, opts...)
 	if err != nil {
